@@ -9,6 +9,8 @@ Spec/Segment.lean (only meaningful on texts of keyword glyphs and plain name cha
 import ZnVerif.Ops.Util
 import ZnVerif.Model.Lexer
 import ZnVerif.Spec.Segment
+import ZnVerif.Spec.NameChars
+import ZnVerif.Spec.IdAlphabet
 
 namespace ZnVerif.Ops.Lex
 open ZnVerif ZnVerif.Ops ZnVerif.Model
@@ -78,11 +80,29 @@ def segmentQSpec (src : List Nat) : String :=
     | .name a b cs => s!" 5:{a}:{b}:{cpField cs}"
   "ok" ++ String.join (ps.map f) ++ s!" 0:{src.length}:{src.length}:-"
 
+/-- `spec:lexalpha <cps>`: the documented tokenisation as a function of the identifier alphabet alone
+(Spec/NameChars.lean), the alphabet being the plain linear reading of the regenerated table (`Spec.linearMember`, the
+same predicate `spec:idrange` answers with).  Token format of `lex`; a refused character is `err syn 25 <position>`
+after the tokens before it; `undefined` where the manual's sentences about names say nothing. -/
+def alphabetMember (c : Nat) : Bool :=
+  decide (c ≤ Generated.IdRange.idMax) && Spec.linearMember Generated.IdRange.idRange c
+
+def lexAlphaSpec (src : List Nat) : String :=
+  let f (p : Spec.Segment.Piece) : String :=
+    match p with
+    | .kw ty a b => s!" {ty}:{a}:{b}:-"
+    | .name a b cs => s!" 5:{a}:{b}:{cpField cs}"
+  match Spec.NameChars.tokenise Spec.Keywords.documented alphabetMember src with
+  | .tokens ps => "ok" ++ String.join (ps.map f) ++ s!" 0:{src.length}:{src.length}:-"
+  | .refused ps pos => "ok" ++ String.join (ps.map f) ++ s!" err syn 25 {pos}"
+  | .undefined => "undefined"
+
 def handle (op : String) (args : List String) : Option String :=
   match op, args with
   | "lex", [s] => some (lexModel (parseCps s))
   | "spec:segment", [s] => some (segmentSpec (parseCps s))
   | "spec:segmentq", [s] => some (segmentQSpec (parseCps s))
+  | "spec:lexalpha", [s] => some (lexAlphaSpec (parseCps s))
   | "lex2", [a, b] => some (lexModel (parseCps a) ++ " ;; " ++ lexModel (parseCps b))
   | _, _ => none
 
